@@ -28,6 +28,12 @@
  *                 null         dlopen/dlsym return NULL
  *                 gone         unlink: really remove the entry, then report ENOENT
  *                 perm:i,j,k   readdir: order of the (name-sorted) entries
+ *                 stall        open/read/write: before the call, create <plan>.reached and wait until
+ *                              <plan>.release exists (the driver runs another process meanwhile)
+ *                 size:N       stat: the call succeeds but reports N as the file size
+ *                 xdev         rename: fails with EXDEV when source and destination lie in different directories
+ *                              (every directory its own file system)
+ * SIMWORLD_ABS=<dir>: absolute paths below <dir> belong to the world as well (logged and matched as spelled).
  * Default readdir order (no rule): sorted by name.
  *
  * Log line:  <seq> <call> <path%enc> <requested> <result> <errno> <rule|->
@@ -53,10 +59,10 @@
 #define MAX_DIRS 32
 #define MAX_SHORTS 32
 
-enum call_kind { C_OPEN, C_READ, C_WRITE, C_UNLINK, C_READDIR, C_DLOPEN, C_DLSYM, C_NKINDS };
-static const char *call_names[] = {"open", "read", "write", "unlink", "readdir", "dlopen", "dlsym"};
+enum call_kind { C_OPEN, C_READ, C_WRITE, C_UNLINK, C_READDIR, C_DLOPEN, C_DLSYM, C_STAT, C_RENAME, C_NKINDS };
+static const char *call_names[] = {"open", "read", "write", "unlink", "readdir", "dlopen", "dlsym", "stat", "rename"};
 
-enum action_kind { A_SHORT, A_EINTR, A_ERRNO, A_KILL, A_KILLAFTER, A_NULL, A_GONE, A_PERM };
+enum action_kind { A_SHORT, A_EINTR, A_ERRNO, A_KILL, A_KILLAFTER, A_NULL, A_GONE, A_PERM, A_STALL, A_SIZE, A_XDEV };
 
 struct rule {
     char id[32];
@@ -81,6 +87,9 @@ static long seq;
 static char *fd_path[MAX_FDS];
 static pthread_mutex_t lock = PTHREAD_MUTEX_INITIALIZER;
 static int initialised;
+static const char *abs_prefix;
+static size_t abs_prefix_len;
+static const char *plan_file;
 
 struct dirstate {
     DIR *dir;
@@ -108,12 +117,14 @@ static int (*real_closedir)(DIR *);
 static void *(*real_dlopen)(const char *, int);
 static void *(*real_dlsym)(void *, const char *);
 static ssize_t (*real_getrandom)(void *, size_t, unsigned int);
+static int (*real_statx)(int, const char *, int, unsigned int, struct statx *);
+static int (*real_rename)(const char *, const char *);
 
 static const struct { const char *name; int value; } errnos[] = {
     {"EIO", EIO}, {"ENOSPC", ENOSPC}, {"EACCES", EACCES}, {"EMFILE", EMFILE},
     {"ENOENT", ENOENT}, {"EBUSY", EBUSY}, {"EPERM", EPERM}, {"EISDIR", EISDIR},
     {"EINTR", EINTR}, {"EAGAIN", EAGAIN}, {"EROFS", EROFS}, {"ENOMEM", ENOMEM},
-    {"EPIPE", EPIPE}, {"EBADF", EBADF}, {NULL, 0}};
+    {"EPIPE", EPIPE}, {"EBADF", EBADF}, {"EXDEV", EXDEV}, {NULL, 0}};
 
 static int hexval(int c)
 {
@@ -254,6 +265,15 @@ static void parse_plan(const char *path)
             } else if (!strncmp(e, "perm:", 5)) {
                 r->action = A_PERM;
                 parse_list(e + 5, r);
+            } else if (!strcmp(e, "stall")) {
+                r->action = A_STALL;
+            } else if (!strcmp(e, "xdev")) {
+                r->action = A_XDEV;
+                r->err = EXDEV;
+            } else if (!strncmp(e, "size:", 5)) {
+                r->action = A_SIZE;
+                parse_list(e + 5, r);
+                if (!r->nlist) fail_plan("empty size", line);
             } else {
                 fail_plan("unknown action", line);
             }
@@ -284,6 +304,11 @@ static void init(void)
     real_closedir = real_dlsym_bootstrap("closedir");
     real_dlopen = real_dlsym_bootstrap("dlopen");
     real_getrandom = real_dlsym_bootstrap("getrandom");
+    real_statx = real_dlsym_bootstrap("statx");
+    real_rename = real_dlsym_bootstrap("rename");
+    abs_prefix = getenv("SIMWORLD_ABS");
+    if (abs_prefix && !*abs_prefix) abs_prefix = NULL;
+    abs_prefix_len = abs_prefix ? strlen(abs_prefix) : 0;
     fd_path[0] = "<stdin>";
     fd_path[1] = "<stdout>";
     fd_path[2] = "<stderr>";
@@ -302,6 +327,7 @@ static void init(void)
         real_write(log_fd, "0 start - 0 0 0 -\n", 18);
     }
     p = getenv("SIMWORLD_PLAN");
+    plan_file = (p && *p) ? strdup(p) : NULL;
     if (p && *p) parse_plan(p);
 }
 
@@ -327,7 +353,31 @@ static const char *norm(const char *p)
     return p;
 }
 
-static int is_world_path(const char *p) { return p && p[0] != '/'; }
+static int is_world_path(const char *p)
+{
+    if (!p) return 0;
+    if (p[0] != '/') return 1;
+    return abs_prefix && !strncmp(p, abs_prefix, abs_prefix_len) && p[abs_prefix_len] == '/';
+}
+
+/* The process stops here until the driver lets it go on (lock is held by the caller and released while waiting). */
+static void do_stall(const char *call, const char *path, struct rule *r)
+{
+    char name[1200];
+    int fd, i;
+    if (!plan_file) return;
+    log_event(call, path, 0, 0, 0, r->id);
+    snprintf(name, sizeof name, "%s.reached", plan_file);
+    fd = real_open(name, O_WRONLY | O_CREAT, 0644);
+    if (fd >= 0) real_close(fd);
+    snprintf(name, sizeof name, "%s.release", plan_file);
+    pthread_mutex_unlock(&lock);
+    for (i = 0; i < 15000; i++) {
+        if (access(name, F_OK) == 0) break;
+        usleep(1000);
+    }
+    pthread_mutex_lock(&lock);
+}
 
 /* Find the rule that applies to this call, updating counters. */
 static struct rule *match_rule(int call, const char *path)
@@ -379,6 +429,7 @@ static int open_common(int kind, int dirfd, const char *path, int flags, mode_t 
     if (r) {
         r->fired++;
         if (r->action == A_KILL) do_kill("open", np, r);
+        if (r->action == A_STALL) do_stall("stall-open", np, r);
         if (r->action == A_EINTR || r->action == A_ERRNO) {
             log_event("open", np, flags, -1, r->err, r->id);
             pthread_mutex_unlock(&lock);
@@ -456,6 +507,7 @@ ssize_t read(int fd, void *buf, size_t count)
     r = match_rule(C_READ, path);
     if (r) {
         if (r->action == A_KILL) do_kill("read", path, r);
+        if (r->action == A_STALL) { r->fired++; do_stall("stall-read", path, r); }
         if (r->action == A_EINTR || r->action == A_ERRNO) {
             r->fired++;
             log_event("read", path, (long)count, -1, r->err, r->id);
@@ -495,6 +547,7 @@ ssize_t write(int fd, const void *buf, size_t count)
     r = match_rule(C_WRITE, path);
     if (r) {
         if (r->action == A_KILL) do_kill("write", path, r);
+        if (r->action == A_STALL) { r->fired++; do_stall("stall-write", path, r); }
         if (r->action == A_EINTR || r->action == A_ERRNO) {
             r->fired++;
             log_event("write", path, (long)count, -1, r->err, r->id);
@@ -530,6 +583,64 @@ ssize_t writev(int fd, const struct iovec *iov, int iovcnt)
     for (i = 0; i < iovcnt; i++)
         if (iov[i].iov_len) return write(fd, iov[i].iov_base, iov[i].iov_len);
     return 0;
+}
+
+/* ------------------------------------------------------------ stat, rename */
+
+int statx(int dirfd, const char *path, int flags, unsigned int mask, struct statx *buf)
+{
+    const char *np = NULL;
+    struct rule *r;
+    int res, e;
+    init();
+    if (!real_statx) { errno = ENOSYS; return -1; }
+    res = real_statx(dirfd, path, flags, mask, buf);
+    e = errno;
+    if (path && path[0] == 0 && (flags & AT_EMPTY_PATH)) {
+        if (dirfd > 2 && dirfd < MAX_FDS && fd_path[dirfd]) np = fd_path[dirfd];
+    } else if (dirfd == AT_FDCWD && is_world_path(path)) {
+        np = norm(path);
+    }
+    if (np && res == 0) {
+        pthread_mutex_lock(&lock);
+        r = match_rule(C_STAT, np);
+        if (r && r->action == A_SIZE) {
+            r->fired++;
+            buf->stx_size = (unsigned long long)r->list[0];
+            log_event("stat", np, 0, (long)r->list[0], 0, r->id);
+        }
+        pthread_mutex_unlock(&lock);
+    }
+    errno = e;
+    return res;
+}
+
+int rename(const char *from, const char *to)
+{
+    struct rule *r = NULL;
+    int res, e;
+    init();
+    if (!is_world_path(from) && !is_world_path(to)) return real_rename(from, to);
+    pthread_mutex_lock(&lock);
+    r = match_rule(C_RENAME, norm(to));
+    if (r && r->action == A_XDEV) {
+        const char *a = strrchr(from, '/'), *b = strrchr(to, '/');
+        size_t la = a ? (size_t)(a - from) : 0, lb = b ? (size_t)(b - to) : 0;
+        if (la == lb && !strncmp(from, to, la)) r = NULL; /* same directory: an ordinary rename */
+    }
+    if (r && (r->action == A_ERRNO || r->action == A_EINTR || r->action == A_XDEV)) {
+        r->fired++;
+        log_event("rename", norm(to), 0, -1, r->err, r->id);
+        pthread_mutex_unlock(&lock);
+        errno = r->err;
+        return -1;
+    }
+    res = real_rename(from, to);
+    e = errno;
+    log_event("rename", norm(to), 0, res, res < 0 ? e : 0, r ? r->id : NULL);
+    pthread_mutex_unlock(&lock);
+    errno = e;
+    return res;
 }
 
 /* ---------------------------------------------------------------- unlink */
